@@ -47,44 +47,53 @@ decreasing_by simp only [List.length_drop, List.length_cons]; omega
 
 def isBytes (bs : Bytes) : Bool := bs.all (· < 256)
 
+/-- `need c clause rest`: the invariant `c` must hold (else the violation is named `clause`), then `rest` -/
+def need (c : Bool) (clause : String) (rest : Option String) : Option String :=
+  if c then rest else some clause
+
+/-- flag class of a recognised attribute: OPTIONAL bit and TRANSITIVE bit as the RFC table says -/
+def flagsOk (cls flags : Nat) : Bool :=
+  (flags / 128 % 2 == (if cls = 1 then 0 else 1)) && (flags / 64 % 2 == (if cls = 2 then 0 else 1))
+
+/-- invariants of the value of a recognised attribute held as raw bytes -/
+def binClause (code : Nat) (bs : Bytes) : Option String :=
+  need (isBytes bs) "not-bytes" <|
+    if code = 1 ∨ code = 4 ∨ code = 5 ∨ code = 9 then some "wrong-value-kind"
+    else if code = 2 then need (segments bs) "bad-as-path" none
+    else if code = 6 then need (bs.length == 0) "bad-length" none
+    else if code = 7 then need (bs.length == 8) "bad-length" none
+    else if code = 8 ∨ code = 10 then need (bs.length % 4 == 0) "bad-length" none
+    else if code = 16 then need (bs.length % 8 == 0) "bad-length" none
+    else if code = 32 then need (bs.length % 12 == 0) "bad-length" none
+    else if code = 17 then
+      need (bs.length % 2 == 0 && decide (6 ≤ bs.length) && segmentsNonEmpty bs) "bad-as4-path" none
+    else if code = 18 then need (bs.length == 8) "bad-length" none
+    else none
+
+/-- invariants of a recognised attribute held as a number -/
+def valClause (code v : Nat) : Option String :=
+  if code = 1 then need (decide (v ≤ 2)) "origin-out-of-range" none
+  else if code = 4 ∨ code = 5 ∨ code = 9 then need (decide (v < 4294967296)) "value-out-of-range" none
+  else some "wrong-value-kind"
+
 /-- `none` = the attribute satisfies every invariant the wire decoder enforces; otherwise the
     (stable) name of the first violated one -/
 def wfClause (a : Attribute) : Option String :=
-  if a.code ≥ 256 ∨ a.flags ≥ 256 then some "code-or-flags-out-of-range"
-  else
+  need (decide (a.code < 256) && decide (a.flags < 256)) "code-or-flags-out-of-range" <|
     match classOf a.code with
     | none =>
         -- unrecognised: only optional transitive ones are kept, as an opaque value
         match a.data with
         | .opaque bs =>
-            if a.flags / 128 % 2 = 1 ∧ a.flags / 64 % 2 = 1 ∧ isBytes bs then none
-            else some "unrecognised-attribute-not-optional-transitive"
+            need (a.flags / 128 % 2 == 1 && a.flags / 64 % 2 == 1 && isBytes bs)
+              "unrecognised-attribute-not-optional-transitive" none
         | _ => some "unrecognised-attribute-not-opaque"
     | some cls =>
-        let flagsOk : Bool :=
-          (a.flags / 128 % 2 = (if cls = 1 then 0 else 1)) && (a.flags / 64 % 2 = (if cls = 2 then 0 else 1))
-        if !flagsOk then some "flag-class-wrong"
-        else
+        need (flagsOk cls a.flags) "flag-class-wrong" <|
           match a.data with
           | .opaque _ => some "recognised-attribute-opaque"
-          | .val v =>
-              if a.code = 1 then (if v ≤ 2 then none else some "origin-out-of-range")
-              else if a.code = 4 ∨ a.code = 5 ∨ a.code = 9 then
-                (if v < 4294967296 then none else some "value-out-of-range")
-              else some "wrong-value-kind"
-          | .bin bs =>
-              if !isBytes bs then some "not-bytes"
-              else if a.code = 1 ∨ a.code = 4 ∨ a.code = 5 ∨ a.code = 9 then some "wrong-value-kind"
-              else if a.code = 2 then (if segments bs then none else some "bad-as-path")
-              else if a.code = 6 then (if bs.length = 0 then none else some "bad-length")
-              else if a.code = 7 then (if bs.length = 8 then none else some "bad-length")
-              else if a.code = 8 ∨ a.code = 10 then (if bs.length % 4 = 0 then none else some "bad-length")
-              else if a.code = 16 then (if bs.length % 8 = 0 then none else some "bad-length")
-              else if a.code = 32 then (if bs.length % 12 = 0 then none else some "bad-length")
-              else if a.code = 17 then
-                (if bs.length % 2 = 0 ∧ 6 ≤ bs.length ∧ segmentsNonEmpty bs then none else some "bad-as4-path")
-              else if a.code = 18 then (if bs.length = 8 then none else some "bad-length")
-              else none
+          | .val v => valClause a.code v
+          | .bin bs => binClause a.code bs
 
 def WF (a : Attribute) : Prop := wfClause a = none
 instance (a : Attribute) : Decidable (WF a) := by unfold WF; infer_instance
